@@ -281,10 +281,11 @@ def get_abacus_structure(atoms, pps, orbitals=None, abfs=None):
     line.append("ATOMIC_POSITIONS")
     line.append("Direct")
     line.append(empty_line)
-    index = 0
     for i, elem in enumerate(elements):
         line.append(f"{elem}\n{0}\n{numbers[i]}")
-        for j in range(index, index + numbers[i]):
+        # Atoms of this element in the order they appear in the cell (stable
+        # grouping), not the next numbers[i] atoms of the atom list.
+        for j in [k for k, s in enumerate(atoms.symbols) if s == elem]:
             if atoms.magnetic_moments is not None:
                 line_part = (
                     " ".join(_list_elem2str(atoms.scaled_positions[j])) + " 1 1 1"
@@ -305,7 +306,6 @@ def get_abacus_structure(atoms, pps, orbitals=None, abfs=None):
                     " ".join(_list_elem2str(atoms.scaled_positions[j])) + " " + "1 1 1"
                 )
         line.append(empty_line)
-        index += numbers[i]
 
     return "\n".join(line)
 
